@@ -5,7 +5,7 @@ S: Search.tla - for every constraint tree of the bounded grammar (depth <= 3 ove
    contains every blob the matcher accepts), OrderLimitValid (Order/Limit vs the validation relation), with
    Deviations = {}; each deviation the code is believed to have is shown to be refuted on the model
    (expect_violation): OrAppendsTypes (H3), SortedSourceDropsSome (H4), RecursiveWholeDir,
-   DeleteDateIsModtime, ContentClaimTimeIgnored.
+   DeleteDateIsModtime, ContentClaimTimeIgnored, DirChildrenCappedByLimit, TypedSourceRepeats.
 G: SearchGen.tla emits (tree, sort, limit): every tree of depth <= 2 x sorts x limits on the small world,
    simulated deeper trees on the others; harness/cmd/c08 builds each world into real signed blobs, indexes it
    once per index mode (corpus built incrementally as the server does / corpus scanned from the rows / no
@@ -13,6 +13,7 @@ G: SearchGen.tla emits (tree, sort, limit): every tree of depth <= 2 x sorts x l
 T: Trace_Search.tla recomputes Matches / planner source / admissible orders on the world JSON for every
    logged query (collect mode) - TLC is the only oracle; seeded random Go-generated trees (deeper, compound
    permanode/file/dir constraints) over seeded random worlds go through the same validator."""
+import itertools
 import json
 import os
 import re
@@ -26,7 +27,7 @@ LEVEL = "model_checking"
 ALL_SORTS = '{"unspecified", "unsorted", "blobref", "created", "createdAsc", "lastmod", "lastmodAsc"}'
 # attribution priority when several single deviations explain a line
 DEVS = ["SortedSourceDropsSome", "OrAppendsTypes", "DeleteDateIsModtime", "RecursiveWholeDir", "ContentClaimTimeIgnored",
-        "DirChildrenCappedByLimit"]
+        "DirChildrenCappedByLimit", "TypedSourceRepeats"]
 # many small TLC processes run side by side: keep each JVM small
 os.environ.setdefault("JAVA_TOOL_OPTIONS", "-Xmx3g -XX:ParallelGCThreads=2 -XX:CICompilerCount=2")
 
@@ -38,6 +39,16 @@ def mkworld(ctx, drv, spec, name):
                          env={"VERIF_REPO": vlib.REPO})
     m = re.search(r"items=(\d+)", so)
     return path, int(m.group(1))
+
+
+_uniq = itertools.count(1)
+
+
+def tconst(name):
+    """Constants of one trace validation. vlib derives the cfg file name from the overrides and writes it
+    non-atomically, so runs that validate against the same world side by side need distinct overrides:
+    MenuSize (unused by Trace_Search) carries a serial number."""
+    return wconst(name, MenuSize=next(_uniq))
 
 
 def wconst(name, **kw):
@@ -108,7 +119,7 @@ def validate(ctx, wname, tracefile, leg, wspec, stats, replay_path=None):
         else:
             tf = "%s.%d" % (tracefile, ci)
             vlib.write_jsonl(tf, chunks[ci])
-        r = ctx.tlc_trace("Trace_Search", "Trace_Search.cfg", tf, overrides=wconst(wname), timeout=1500)
+        r = ctx.tlc_trace("Trace_Search", "Trace_Search.cfg", tf, overrides=tconst(wname), timeout=1500)
         if not r["accepted"]:
             raise vlib.MachineryError("trace %s not fully consumed: %s" % (tf, r["out"][-1500:]))
         return [(ci * CHUNK + int(m.group(1)), json.loads(json.loads(m.group(2))))
@@ -165,7 +176,7 @@ def negative_sample(ctx, wname, evs):
     x = json.loads(json.dumps(base)); x["limit"] = 2; bad.append(x)                                # limit ignored
     tf = ctx.path("neg_%s.ndjson" % wname)
     vlib.write_jsonl(tf, [base] + bad)
-    r = ctx.tlc_trace("Trace_Search", "Trace_Search.cfg", tf, overrides=wconst(wname))
+    r = ctx.tlc_trace("Trace_Search", "Trace_Search.cfg", tf, overrides=tconst(wname))
     lines = sorted(int(m.group(1)) for m in re.finditer(r'<<"VIOL", (\d+),', r["out"]))
     if not r["accepted"] or lines != [2, 3, 4, 5, 6]:
         raise vlib.MachineryError("negative sample: corrupted lines 2..6 must be rejected and line 1 accepted, got %s" % lines)
@@ -233,7 +244,8 @@ def run(ctx, replay):
     sens = [("OrAppendsTypes", "ws", "SourceCoversMatches", 8), ("SortedSourceDropsSome", "ws", "SourceCoversMatches", 8),
             ("DeleteDateIsModtime", "ws", "MatcherAgrees", 14), ("ContentClaimTimeIgnored", "wf", "MatcherAgrees", 20),
             ("RecursiveWholeDir", "wf", "MatcherAgrees", 20),
-            ('DirChildrenCappedByLimit", "cap2', "wf", "MatcherAgrees", 20)]
+            ('DirChildrenCappedByLimit", "cap2', "wf", "MatcherAgrees", 20),
+            ("TypedSourceRepeats", "wp", "TypedSourceOnce", 7)]
     for dev, w, inv, msize in sens:
         jobs.append(("S", lambda dev=dev, w=w, inv=inv, msize=msize: ctx.tlc_check(
             "Search", "Search.cfg", overrides=wconst(w, MenuSize=msize, Deviations='{"%s"}' % dev), workers=1,
@@ -291,7 +303,7 @@ def run(ctx, replay):
     ctx.cov["candidate_sources_seen"] = stats["sources"]
     ctx.cov["replies_seen"] = stats["res"]
     ctx.cov["rule"] = ("S: every constraint tree of depth <= 3 over the world's atom menu x 6 sorts on 3 fixed worlds (planner "
-                       "source covers the matches; Order/Limit accepted by the validation relation), 6 deviations refuted; "
+                       "source covers the matches; Order/Limit accepted by the validation relation), 7 deviations refuted; "
                        "G: all trees of depth <= 2 x 7 sorts x limits on the small world + simulated trees of depth <= 5 on 3 "
                        "worlds, each run on the real handler in 3 index modes; T: seeded random compound trees on 3 fixed + %d "
                        "random worlds; every logged query re-evaluated by TLC (Trace_Search). distinct = mode x sort x "
